@@ -197,7 +197,7 @@ CLAIMS = {
         level="model_checking", design="DESIGN.md section 3, C02 and section 8",
         text="Per opcode and operand shape (one tiny MIR function each, generated from the opcode list of /repo/mir.c): (1) the REAL interpreter (eval) "
              "on the icode produced by the REAL MIR_link/generate_icode (so the link-time shortcuts are included) and (2) the machine code emitted by "
-             "the REAL generator at -O2 and -O0 (quick) / -O0..-O3 (thorough), lifted to C (E3), are run from ALL operand values (64-bit integers, "
+             "the REAL generator at -O2 and -O0 (quick; plus -O1 and -O3 for the cheap integer / memory / branch / overflow cases) / -O0..-O3 (thorough), lifted to C (E3), are run from ALL operand values (64-bit integers, "
              "all float/double/long-double bit patterns, arbitrary memory contents) and compared with ref/mir_ref.h, written from MIR.md: width, "
              "signedness, extension of narrow loads, truncation of stores, NaN comparisons, overflow-flag branches, conversions.  Operand shapes: "
              "register (incl. dst==src aliasing), boundary immediates in either position, both operands constant (the generator's folding), memory operands "
